@@ -23,4 +23,4 @@ def check(ctx, rep):
     A.rule_task_closure(m, rep, 'R4')
     B.rule_handle_drop(m, rep, 'R5')
     A.rule_same_channel(m, rep, 'R6')
-    B.rule_sentinel(m, rep)
+    B.rule_sentinel(m, rep, count=False)
